@@ -603,3 +603,135 @@ async fn exec_op(
 
 #[allow(dead_code)]
 fn _unused(_: NonZeroU32) {}
+
+// ------------------------------------------------------------------------------------------
+// client role
+
+fn seen_of_pkt(pk: &codec::Publish, route: &str) -> PubSeen {
+    PubSeen {
+        topic: pk.topic.to_string(),
+        qos: pk.qos as u8,
+        dup: pk.dup,
+        retain: pk.retain,
+        pid: pk.packet_id.map(NonZeroU16::get),
+        declared_len: pk.payload_size as usize,
+        props_sig: props_sig_v5(&pk.properties),
+        alias: pk.properties.topic_alias.map(NonZeroU16::get),
+        route: route.to_string(),
+    }
+}
+
+pub async fn client_proto_handler(
+    w: Rc<World>,
+    msg: v5::client::ProtocolMessage,
+) -> Result<v5::client::ProtocolMessageAck, AppErr> {
+    match msg {
+        v5::client::ProtocolMessage::Publish(p) => {
+            let seen = seen_of_pkt(p.packet(), "control");
+            let outcome = crate::app_v3::gated_publish!(w, 0, seen, p);
+            match outcome {
+                Outcome::Ok => Ok(p.ack(codec::PublishAckReason::Success)),
+                Outcome::Neg(c) => match codec::PublishAckReason::try_from(c) {
+                    Ok(rc) => Ok(p.ack(rc)),
+                    Err(_) => Err(AppErr::Fatal),
+                },
+                _ => Err(AppErr::Fatal),
+            }
+        }
+        other => {
+            let (brief, pid) = match &other {
+                v5::client::ProtocolMessage::PublishRelease(r) => {
+                    (format!("PUBREL #{}", r.packet().packet_id), Some(r.packet().packet_id.get()))
+                }
+                v5::client::ProtocolMessage::Disconnect(d) => {
+                    (format!("DISCONNECT c={:?}", d.packet().reason_code), None)
+                }
+                v5::client::ProtocolMessage::Ping(_) => ("PINGREQ".to_string(), None),
+                v5::client::ProtocolMessage::Publish(_) => unreachable!(),
+            };
+            let (gid, imm) = w.gate_enter(0, GateKind::Proto, GateDesc::Proto { brief, pid });
+            let _guard = GateGuard { w: w.clone(), id: gid };
+            let outcome = match imm {
+                Some(o) => o,
+                None => w.gate_wait(gid).await,
+            };
+            w.gate_exit(gid, outcome.clone());
+            match outcome {
+                Outcome::Ok | Outcome::Neg(_) => Ok(other.ack()),
+                Outcome::Disconnect(code) => {
+                    let rc = codec::DisconnectReasonCode::try_from(code)
+                        .unwrap_or(codec::DisconnectReasonCode::UnspecifiedError);
+                    Ok(other.disconnect(codec::Disconnect::new(rc)))
+                }
+                _ => Err(AppErr::Fatal),
+            }
+        }
+    }
+}
+
+pub async fn run_client(w: Rc<World>, plan: Rc<Plan>) {
+    let cfg: SharedCfg = shared_cfg(&plan.cfg);
+    let (cid, wire) = w.add_wire();
+    let cfg2 = cfg.clone();
+    let connector = v5::client::MqttConnector::<String, _>::new().connector(fn_service(
+        move |_: ntex_net::connect::Connect<String>| {
+            let io = Io::new(wire.stream(), cfg2.clone());
+            async move { Ok::<_, ntex_net::connect::ConnectError>(io) }
+        },
+    ));
+    let svc = match connector.pipeline(cfg.clone()).await {
+        Ok(s) => s,
+        Err(e) => {
+            *w.setup_error.borrow_mut() = Some(format!("client connector: {e:?}"));
+            return;
+        }
+    };
+    let c = &plan.cfg;
+    let (ka, rm, mps, tam) = (c.client_keepalive_s, c.client_receive_max, c.client_max_packet_size, c.client_topic_alias_max);
+    let req = v5::client::Connect::new("sim".to_string()).client_id("c0").packet(move |p| {
+        p.keep_alive = ka;
+        p.receive_max = NonZeroU16::new(rm);
+        p.max_packet_size = mps.and_then(NonZeroU32::new);
+        p.topic_alias_max = tam;
+    });
+    let (w2, plan2) = (w.clone(), plan.clone());
+    ntex_util::spawn(async move {
+        let (w, plan) = (w2, plan2);
+        let client = match svc.call(req).await {
+            Ok(c) => c,
+            Err(e) => {
+                let s = format!("connect-err:{e:?}");
+                w.conn_done.borrow_mut()[cid] = Some(s.clone());
+                w.ev(Ev::ConnDone { conn: cid, res: s });
+                return;
+            }
+        };
+        start_senders(&w, &plan, client.sink());
+        let (wa, wb) = (w.clone(), w.clone());
+        let gated = plan.cfg.ctl_gated;
+        let res = if plan.cfg.use_router {
+            let (w1, w2, w3) = (w.clone(), w.clone(), w.clone());
+            client
+                .resource("a", fn_service(move |p: v5::Publish| publish_handler(w1.clone(), 0, p, "res:a")))
+                .resource("b/{x}", fn_service(move |p: v5::Publish| publish_handler(w2.clone(), 0, p, "res:b")))
+                .resource("t/{id}", fn_service(move |p: v5::Publish| publish_handler(w3.clone(), 0, p, "res:t")))
+                .start(fn_service(move |m: v5::client::ProtocolMessage| client_proto_handler(wa.clone(), m)))
+                .await
+                .map_err(|e| format!("{e:?}"))
+        } else {
+            client
+                .start_with_control(
+                    fn_service(move |m: v5::client::ProtocolMessage| client_proto_handler(wa.clone(), m)),
+                    fn_service(move |m: Control<AppErr>| control_handler(wb.clone(), 0, gated, m)),
+                )
+                .await
+                .map_err(|e| format!("{e:?}"))
+        };
+        let s = match res {
+            Ok(()) => "ok".to_string(),
+            Err(e) => format!("err:{e}"),
+        };
+        w.conn_done.borrow_mut()[cid] = Some(s.clone());
+        w.ev(Ev::ConnDone { conn: cid, res: s });
+    });
+}
